@@ -127,6 +127,17 @@ CLAIMED = {
              'names in numeric positions, wrong operand counts, mixed-case mnemonics; the image must carry the encoding of the '
              'first accepting candidate in the documented order, or the statement must be rejected when none accepts.',
         note='Trusted: acceptance table and priority classes in vf/oracles/c13.py; ties inside one priority class are DONT_CARE.'),
+    'C14': dict(
+        category='fault_enumeration', design_ref='DESIGN.md §3 C14',
+        technique='runtime monitoring: bounded-progress monitor (sys.monitoring LINE step counter on the engine loops, RLIMIT_CPU '
+                  'backstop) + fail-closed oracle over a catalogue of corrupted programs (sentinel image, open() audit hook)',
+        text='Valid generated programs and example programs are put through 17 corruption kinds at first / middle / last '
+             'positions, with and without each pretty-print format; every real CLI run must end within B = 200 x lines + 60000 '
+             'monitored steps, report success only with an image written and failure only with the pre-placed sentinel image '
+             'untouched and never opened for writing; planted unresolvable labels, unknown instructions, unmatched operand '
+             'shapes and out-of-range values must fail.',
+        note='Termination is restated as bounded progress (no finite run decides liveness); wall-clock timeouts are '
+             'inconclusive.'),
     'C15': dict(
         category='exploration', design_ref='DESIGN.md §3 C15',
         technique='runtime monitoring: byte-identity of all outputs across interpreter hash seeds (one zygote pool per seed), '
